@@ -20,8 +20,8 @@ ASSUMPTIONS = [
 ]
 COMPONENTS = pcheck.components(["reference LP solved by HiGHS (reference model of the solver node)"])
 TIERS = {
-    "quick": {"histories": 64, "budget_s": 120, "timeout": 400},
-    "thorough": {"histories": 1600, "budget_s": 1800, "timeout": 500},
+    "quick": {"histories": 512, "budget_s": 120, "timeout": 400},
+    "thorough": {"histories": 6400, "budget_s": 1800, "timeout": 500},
 }
 
 
